@@ -345,8 +345,13 @@ let ref_query c (ans : string list) : (string * verdict) list =
                                       | Some true -> [ "affine_dimension/universe", (if v = n then Ok else Fail "universe must have full dimension") ]
                                       | _ -> [])
                      | None -> []) in
-           r1 @ r2 @ r3
+           (* exact at 0: affine dimension 0 iff the set has at most one point (theorem C01_is_discrete) *)
+           let r4 = (match timed (fun () -> q_is_discrete (nat n) x.s) None with
+                     | Some d -> [ "affine_dimension/zero", (if d = (v = 0) then Ok else Fail (Printf.sprintf "answer %d, but the set %s" v (if d then "has at most one point" else "has two distinct points"))) ]
+                     | None -> []) in
+           r1 @ r2 @ r3 @ r4
        | _ -> raise (Syntax "expected ans n"))
+  | "is_discrete" -> cmpb q (lazy (q_is_discrete (nat n) x.s))
   | "constrains" -> let v = nexti c in cmpb q (lazy (q_constrains dn (nat v) x.s))
   | "bounds_from_above" -> let e = read_expr_n c in cmpb q (lazy (q_bounds_above (nat n) e x.s))
   | "bounds_from_below" -> let e = read_expr_n c in cmpb q (lazy (q_bounds_below (nat n) e x.s))
